@@ -10,8 +10,11 @@ namespace XmlDiffModel
 namespace Along
 open Tree Chw XmlDiffModel.Acc XmlDiffModel.Names XmlDiffModel.Rej XmlDiffModel.JInv
 
-/-- texts and tails no longer than the engine model is proved for -/
-def ShortP (p : Payload) : Prop := (strOf p.text).length ≤ TEXT_MAX ∧ (strOf p.tail).length ≤ TEXT_MAX
+/-- texts and tails no longer than the engine model is proved for and, when the formatter normalises texts (`w`), in
+whitespace-normal form (no white-space run other than a single blank, none at either end) -/
+def ShortP (w : Bool) (p : Payload) : Prop :=
+  (strOf p.text).length ≤ TEXT_MAX ∧ (strOf p.tail).length ≤ TEXT_MAX ∧
+    (w = true → wsNorm (strOf p.text) = strOf p.text ∧ wsNorm (strOf p.tail) = strOf p.tail)
 
 /-- what `CleanT` says of every payload -/
 def CleanP (p : Payload) : Prop := (∀ kv ∈ p.attrs, isDiffKey kv.1 = false) ∧ TextOK p.text ∧ TextOK p.tail
@@ -33,9 +36,9 @@ mutual
 end
 
 /-- the invariant at the start: nothing is marked in a clean document with short texts -/
-theorem jall_init (L : Tree) (hclean : CleanT L) (hshort : AllP ShortP L) :
-    JAll (fun x => x) L L [] [] [] := by
-  have key : ∀ l p, payOf L l = some p → CleanP p ∧ ShortP p := by
+theorem jall_init (w : Bool) (L : Tree) (hclean : CleanT L) (hshort : AllP (ShortP w) L) :
+    JAll w (fun x => x) L L [] [] [] := by
+  have key : ∀ l p, payOf L l = some p → CleanP p ∧ ShortP w p := by
     intro l p hp
     unfold payOf at hp
     cases hf : find l L with
@@ -44,7 +47,7 @@ theorem jall_init (L : Tree) (hclean : CleanT L) (hshort : AllP ShortP L) :
       rw [hf] at hp
       simp only [Option.map_some, Option.some.injEq] at hp
       subst hp
-      exact ⟨allP_root _ _ (allP_find CleanP l L n hf (cleanP_of_clean L hclean)), allP_root _ _ (allP_find ShortP l L n hf hshort)⟩
+      exact ⟨allP_root _ _ (allP_find CleanP l L n hf (cleanP_of_clean L hclean)), allP_root _ _ (allP_find (ShortP w) l L n hf hshort)⟩
   refine ⟨?_, ?_, ?_⟩
   · intro l _ p hp hF
     obtain ⟨hc, _⟩ := key l p hp
@@ -53,10 +56,10 @@ theorem jall_init (L : Tree) (hclean : CleanT L) (hshort : AllP ShortP L) :
     cases hF
   · intro l _ p hp hF
     obtain ⟨hc, hs⟩ := key l p hp
-    exact absurd ⟨hc.2.1.1, hs.1⟩ hF
+    exact absurd ⟨hc.2.1.1, hs.1, fun hw => (hs.2.2 hw).1⟩ hF
   · intro l _ p hp hF
     obtain ⟨hc, hs⟩ := key l p hp
-    exact absurd ⟨hc.2.2.1, hs.2⟩ hF
+    exact absurd ⟨hc.2.2.1, hs.2.1, fun hw => (hs.2.2 hw).2⟩ hF
 
 /-- the state `XMLFormatter.prepare` leaves: the left document, no text tags, no `use_replace` -/
 def fstate0 (L : Tree) (fresh : Nat) (ft : List Str) (segs : List (List Seg)) (w : Bool) : FState :=
@@ -65,13 +68,13 @@ def fstate0 (L : Tree) (fresh : Nat) (ft : List Str) (segs : List (List Seg)) (w
 /-- **The XML formatter on the script of the differ, engine included.** -/
 theorem differ_script_engine (bis : Dmp.Bisect) (qn : QName) (cfg : Cfg) (L R : Tree) (M : List (Nat × Nat)) (fresh : Nat)
     (script : List Action) (final : Tree) (ft : List Str) (segs : List (List Seg)) (w : Bool)
-    (hclean : CleanT L) (hshort : AllP ShortP L) (hL : (ids L).Nodup) (hRn : (ids R).Nodup)
+    (hclean : CleanT L) (hshort : AllP (ShortP w) L) (hL : (ids L).Nodup) (hRn : (ids R).Nodup)
     (hdisj : ∀ i ∈ ids L, i ∉ ids R)
     (hfL : ∀ i ∈ ids L, i < fresh) (hfR : ∀ i ∈ ids R, i < fresh) (hM : GoodMatching L R M)
     (hR : ∀ x ∈ bfs R, (keys x.payload.attrs).Nodup ∧ XClean (fun k => isDiffKey k = false) x)
-    (hsh : ∀ a ∈ script, ShortTexts a)
+    (hsh : ∀ a ∈ script, ShortTexts w a)
     (h : scriptGen qn cfg L R M fresh = .ok (script, final)) :
-    ∃ s' σ, runFmtE false bis qn (fstate0 L fresh ft segs w) script = .ok s' ∧
+    ∃ s' σ, runFmtE w bis qn (fstate0 L fresh ft segs w) script = .ok s' ∧
       acc (cln accS) s'.tree = MapId.mapId σ final ∧ MapId.InjOn σ (ids final) ∧ rej s'.tree = bare L := by
   obtain ⟨nx, hstrict⟩ := scriptGen_strict qn cfg L R M fresh script final hL hRn hdisj hfL hfR hM
     (fun x hx => (hR x hx).1) (fun x hx hk => by rw [(hR x hx).2.1] at hk; cases hk) h
@@ -98,8 +101,8 @@ theorem differ_script_engine (bis : Dmp.Bisect) (qn : QName) (cfg : Cfg) (L R : 
     fresh script final hL hRn hfL hM hA h
   have o3 := Once.scriptGen_once Once.tailSel Once.goodSel_tail _ Once.isSome_tailSel Once.one_tail qn cfg L R
     M fresh script final hL hRn hfL hM hA h
-  obtain ⟨s', σ, h1, r, _, h4⟩ := run_E bis qn script _ ⟨htok, hb, rfl⟩ hrok L fresh (fun x => x) r0 [] [] []
-    (jall_init L hclean hshort)
+  obtain ⟨s', σ, h1, r, _, h4⟩ := run_E w bis qn script _ ⟨htok, hb, rfl⟩ hrok L fresh (fun x => x) r0 [] [] []
+    (jall_init w L hclean hshort)
     (fun a ha => ⟨(hacts a ha).1, hpn a ha, (hacts a ha).2.1, hsh a ha⟩) hpaths
     (by simpa using o1) (by simpa using o2) (by simpa using o3) ⟨final, nx⟩ hrun
   exact ⟨s', σ, h1, r.eq, r.inj, by rw [h4]; exact rej_clean L hclean⟩
